@@ -26,15 +26,16 @@ import (
 )
 
 type vxRunCfg struct {
-	Kind     string `json:"kind"` // hwmon | file
-	NoEnable bool   `json:"noEnable,omitempty"`
-	OrigMode int    `json:"origMode"`
-	OrigPwm  int    `json:"origPwm"`
-	Stored   bool   `json:"stored"`   // RPM curve and PWM map already in the database
-	ConfMap  bool   `json:"confMap"`  // pwmMap given in the configuration (no sweep)
-	Scenario string `json:"scenario"` // signal | stall
-	RpmSkew  int    `json:"rpmSkew"`  // RPM polling rate = 1s + skew microseconds (tie order of coinciding timers)
-	Faults   bool   `json:"faults"`   // write faults are choice points
+	Kind      string `json:"kind"` // hwmon | file
+	NoEnable  bool   `json:"noEnable,omitempty"`
+	OrigMode  int    `json:"origMode"`
+	OrigPwm   int    `json:"origPwm"`
+	Stored    bool   `json:"stored"`              // RPM curve and PWM map already in the database
+	CurveOnly bool   `json:"curveOnly,omitempty"` // only the RPM curve is in the database (older database / deleted map): start-up still sweeps
+	ConfMap   bool   `json:"confMap"`             // pwmMap given in the configuration (no sweep)
+	Scenario  string `json:"scenario"`            // signal | stall
+	RpmSkew   int    `json:"rpmSkew"`             // RPM polling rate = 1s + skew microseconds (tie order of coinciding timers)
+	Faults    bool   `json:"faults"`              // write faults are choice points
 }
 
 func (c vxRunCfg) String() string {
@@ -118,6 +119,11 @@ func vxRunBuild(cfg vxRunCfg, id string, fs *env.FS, chip string, db string, nev
 		}
 		if err := pers.SaveFanPwmMap(id, vxMap("identity")); err != nil {
 			panic(err)
+		}
+		if cfg.CurveOnly {
+			if err := pers.DeleteFanPwmMap(id); err != nil {
+				panic(err)
+			}
 		}
 	}
 	w.ctl = NewFanController(pers, fan, vxLoop("direct"), 200*time.Millisecond).(*DefaultFanController)
